@@ -8,7 +8,7 @@ Fixpoint loopn (s : st) (rs : list rrset) : st * option Z :=
   match rs with
   | [] => (s, None)
   | r :: rest =>
-      match step false s r with
+      match step Mid s r with
       | (s', Some e) => (s', Some e)
       | (s', None) => loopn s' rest
       end
@@ -26,7 +26,7 @@ Proof.
 Qed.
 
 (* being last in the message only matters for a final SOA that passed every other check *)
-Lemma step_false_true : forall s r s', step false s r = (s', None) -> step true s r = (s', None).
+Lemma step_false_true : forall s r s', step Mid s r = (s', None) -> step Last s r = (s', None).
 Proof.
   intros s r s' H. unfold step in *.
   destruct (done s); [discriminate|].
@@ -41,8 +41,8 @@ Qed.
 
 Lemma loop_loopn : forall rs s s', loopn s rs = (s', None) -> loop s rs = (s', None).
 Proof.
-  induction rs as [|r rest IH]; intros s s' H; cbn [loop loopn] in *; [exact H|].
-  destruct (step false s r) as [s1 [e|]] eqn:Hs; [discriminate|].
+  induction rs as [|r rest IH]; intros s s' H; cbn [loopT loopn] in *; [exact H|].
+  destruct (step Mid s r) as [s1 [e|]] eqn:Hs; [discriminate|].
   destruct rest as [|r2 rest].
   - cbn [loopn] in H. inversion H; subst. rewrite (step_false_true _ _ _ Hs). reflexivity.
   - rewrite Hs. apply IH, H.
@@ -52,13 +52,13 @@ Lemma loop_snoc : forall rs r s,
   loop s (rs ++ [r]) =
   match loopn s rs with
   | (s1, Some e) => (s1, Some e)
-  | (s1, None) => step true s1 r
+  | (s1, None) => step Last s1 r
   end.
 Proof.
-  induction rs as [|a rs IH]; intros r s; cbn [app loop loopn].
-  - destruct (step true s r) as [s' [e|]]; reflexivity.
-  - assert (E : match rs ++ [r] with [] => true | _ :: _ => false end = false) by (destruct rs; reflexivity).
-    rewrite E. destruct (step false s a) as [s1 [e|]]; [reflexivity|apply IH].
+  induction rs as [|a rs IH]; intros r s; cbn [app loopT loopn].
+  - destruct (step Last s r) as [s' [e|]]; reflexivity.
+  - assert (E : match rs ++ [r] with [] => Last | _ :: _ => Mid end = Mid) by (destruct rs; reflexivity).
+    rewrite E. destruct (step Mid s a) as [s1 [e|]]; [reflexivity|apply IH].
 Qed.
 
 Lemma loopn_app : forall a b s,
@@ -69,19 +69,19 @@ Lemma loopn_app : forall a b s,
   end.
 Proof.
   induction a as [|x a IH]; intros b s; cbn [app loopn]; [reflexivity|].
-  destruct (step false s x) as [s1 [e|]]; [reflexivity|apply IH].
+  destruct (step Mid s x) as [s1 [e|]]; [reflexivity|apply IH].
 Qed.
 
 Lemma loopn_none_not_done : forall rs s s', loopn s rs = (s', None) -> done s' = false -> done s = false.
 Proof.
   intros [|r rest] s s' H Hd; cbn [loopn] in H.
   - inversion H; subst; exact Hd.
-  - destruct (step false s r) as [s1 [e|]] eqn:Hs; [discriminate|].
+  - destruct (step Mid s r) as [s1 [e|]] eqn:Hs; [discriminate|].
     eapply step_none_not_done; eassumption.
 Qed.
 
 (* fields that the loop never changes; the transaction stays open until done *)
-Lemma step_inv : forall l s r s' o, step l s r = (s', o) ->
+Lemma step_inv : forall (l : flag) s r s' o, step l s r = (s', o) ->
   soa s' = soa s /\ is_udp s' = is_udp s /\ rdtype s' = rdtype s /\
   (done s' = false -> txn s <> None -> txn s' <> None).
 Proof.
@@ -89,21 +89,22 @@ Proof.
   brkH H; inversion H; subst; cbn; repeat split; auto; try congruence; intros; discriminate.
 Qed.
 
-Lemma loop_inv : forall rs s s' o, loop s rs = (s', o) ->
+Lemma loop_inv : forall sg rs s s' o, loopT sg s rs = (s', o) ->
   soa s' = soa s /\ is_udp s' = is_udp s /\ rdtype s' = rdtype s /\
-  (done s' = false -> o = None -> txn s <> None -> txn s' <> None).
+  (done s' = false -> o = None -> txn s <> None -> txn s' <> None) /\ req_tsig s' = req_tsig s.
 Proof.
-  induction rs as [|r rest IH]; intros s s' o H; cbn [loop] in H.
+  intros sg. induction rs as [|r rest IH]; intros s s' o H; cbn [loopT] in H.
   - inversion H; subst. repeat split; auto.
   - destruct (step _ s r) as [s1 [e|]] eqn:Hs.
-    + inversion H; subst. apply step_inv in Hs. destruct Hs as (A & B & C & D).
+    + inversion H; subst. pose proof (step_req_tsig _ _ _ _ _ Hs) as R.
+      apply step_inv in Hs. destruct Hs as (A & B & C & D).
       repeat split; auto; try congruence; intros; discriminate.
-    + pose proof H as Hl. apply IH in H. apply step_inv in Hs.
-      destruct Hs as (A & B & C & D). destruct H as (A' & B' & C' & D').
+    + pose proof H as Hl. apply IH in H. pose proof (step_req_tsig _ _ _ _ _ Hs) as R. apply step_inv in Hs.
+      destruct Hs as (A & B & C & D). destruct H as (A' & B' & C' & D' & R').
       repeat split; try congruence. intros Hd Ho Ht. apply D'; auto. apply D; auto.
       (* done s1 = false: otherwise the next step fails or s1 is final *)
       destruct (done s1) eqn:Hd1; [|reflexivity]. exfalso.
-      destruct rest as [|r2 rest]; cbn [loop] in Hl.
+      destruct rest as [|r2 rest]; cbn [loopT] in Hl.
       * inversion Hl; subst. congruence.
       * destruct (step _ s1 r2) as [s2 [e|]] eqn:Hs2.
         -- inversion Hl; subst. discriminate.
@@ -112,7 +113,7 @@ Qed.
 
 (* ---- the driver over any division of the records into messages (one RRset per record) ---- *)
 Definition running (s : st) : Prop :=
-  done s = false /\ txn s <> None /\ soa s <> None /\ is_udp s = false.
+  done s = false /\ txn s <> None /\ soa s <> None /\ is_udp s = false /\ req_tsig s = false.
 
 Definition cont (one_rr : bool) (r : st * option Z) (ws : list wmsg) : result * nat :=
   match r with
@@ -133,7 +134,7 @@ Lemma process_running : forall s m, running s ->
   m_rcode m = 0 -> (m_question m = [] \/ exists q, m_question m = (origin, rdtype s) :: q) ->
   process_message s m = loop s (m_answer m).
 Proof.
-  intros s m (Hd & Ht & Hs & Hu) Hrc Hq. unfold process_message.
+  intros s m (Hd & Ht & Hs & Hu & Hrq) Hrc Hq. unfold process_message.
   destruct (txn s) as [tz|] eqn:Etx; [|congruence].
   rewrite Hrc. cbn [Z.eqb negb].
   assert (Q : (match m_question m with
@@ -141,6 +142,7 @@ Proof.
                | [] => None end) = None).
   { destruct Hq as [->|[q ->]]; [reflexivity|]. rewrite !Z.eqb_refl. reflexivity. }
   rewrite Q. destruct (soa s) eqn:Es; [|congruence].
+  rewrite (loopT_nosig _ _ (m_tsig m) Hrq).
   destruct (loop s (m_answer m)) as [s' [e|]] eqn:Hl; [reflexivity|].
   apply loop_inv in Hl. destruct Hl as (_ & Hu' & _). rewrite Hu', Hu. reflexivity.
 Qed.
@@ -159,7 +161,7 @@ Qed.
 
 Lemma running_after_loop : forall s rs s', running s -> loop s rs = (s', None) -> done s' = false -> running s'.
 Proof.
-  intros s rs s' (Hd & Ht & Hs & Hu) Hl Hd'. apply loop_inv in Hl. destruct Hl as (A & B & C & D).
+  intros s rs s' (Hd & Ht & Hs & Hu & Hrq) Hl Hd'. apply loop_inv in Hl. destruct Hl as (A & B & C & D & R).
   repeat split; try congruence. apply D; auto.
 Qed.
 
@@ -167,7 +169,7 @@ Lemma cont_records : forall ws a s c fin s1 s2,
   running s -> Forall (header_ok (rdtype s)) ws ->
   a ++ concat (map w_records ws) = c ++ [fin] ->
   loopn s (map single c) = (s1, None) -> done s1 = false ->
-  step true s1 (single fin) = (s2, None) -> done s2 = true ->
+  step Last s1 (single fin) = (s2, None) -> done s2 = true ->
   exists n, cont true (loop s (map single a)) ws = (Done (pub s2), n).
 Proof.
   induction ws as [|w ws IH]; intros a s c fin s1 s2 Hrun Hh Hcat Hl Hd1 Hfin Hd2.
